@@ -598,7 +598,13 @@ def r14_4(ctx, rc):
     mv = [x for x in sg.nodes if x.kind == 'ret' and
           callee_name(x) in ('os.rename', 'os.replace', 'shutil.move')]
     if not mv:
-        raise AnalysisError('no move in ' + F.qualname)
+        rc.violation(
+            'backup-not-moved | ' + F.qualname,
+            '%s does not move the file aside (no rename/replace/move): the '
+            'original stays in place or is copied, so there is nothing '
+            'atomic to register and restore' % F.qualname,
+            ctx.prog.loc(F, F.node), key='the backup is a move')
+        return
 
     def registered(x):
         return (x.kind == 'ret' and x.call is not None and
